@@ -14,7 +14,7 @@ REQUIRED = ['ipsw_saturated', 'gtransport_saturated', 'aipsw_outcome_saturated',
 RULE = ('random combined data sets: a study sample (1-2 categorical modifiers, <= 8 strata, both arms and both outcome '
         'values in every stratum) plus a target sample with at least one row per stratum; target rows carry A = NaN, and '
         'Y = NaN or junk values (both variants are run and must agree); cells: IPSW+treatment model, GTransportFormula, '
-        'AIPSW with/without treatment model x generalize x stabilized; all models saturated.  distinct = (data hash, '
+        'AIPSW with/without treatment model x generalize x stabilized; a third variant records junk A and Y outside the sample; all models saturated.  distinct = (data hash, '
         'estimator, options); non-trivial = the modifier distribution differs between sample and target and the '
         'stratum-specific effects differ (generalize and transport closed forms differ from the crude sample estimate)')
 ASSUMPTIONS = ['statsmodels GLM solves the score equations of the saturated sampling / treatment / outcome models '
@@ -31,7 +31,8 @@ def combined(rng, junk):
         for _ in range(1 + int(rng.integers(0, 12))):
             rows.append(list(s))
     tgt = pd.DataFrame(rows, columns=covs)
-    tgt['A'] = np.nan
+    # junk = False: A, Y missing outside the sample;  True: junk Y;  'AY': treatment AND outcome recorded (junk) there
+    tgt['A'] = rng.integers(0, 2, size=len(tgt)).astype(float) if junk == 'AY' else np.nan
     tgt['Y'] = rng.integers(0, 2, size=len(tgt)).astype(float) if junk else np.nan
     tgt['S'] = 0
     out = pd.concat([df, tgt], ignore_index=True)
@@ -133,6 +134,7 @@ def run(chk, drv, rng, tier):
         seed = int(rng.integers(0, 2 ** 31))
         dfj, covs = combined(np.random.default_rng(seed), junk=True)
         dfn, _ = combined(np.random.default_rng(seed), junk=False)
+        dfa, _ = combined(np.random.default_rng(seed), junk='AY')
         cf = closed_form(dfn, covs)
         sid = gen.strata_ids(dfn, covs)
         # gate H: reference saturated sampling fit = stratum sampling fractions
@@ -175,6 +177,13 @@ def run(chk, drv, rng, tier):
                         chk.d(close(ej.risk_difference, e.risk_difference, rtol=1e-12, atol=1e-14) and
                               close(ej.risk_ratio, e.risk_ratio, rtol=1e-12, atol=1e-14),
                               '%s unaffected by outcome values recorded outside the sample' % which, case)
+                        # treatment and outcome recorded (junk) outside the sample: with a saturated outcome model the
+                        # result is still the standardization of the SAMPLE's cell means (IPSW fits its treatment model
+                        # on the sample only; AIPSW is outcome-saturated; g-transport sets A itself)
+                        ea = estimators(dfa, covs, g, stab, treat, which)
+                        chk.d(close(ea.risk_difference, want_rd, **TOL) and close(ea.risk_ratio, want_rr, **TOL),
+                              '%s with A and Y recorded outside the sample still standardizes the sample cell means' % which,
+                              dict(case, impl_AY=[float(ea.risk_difference), float(ea.risk_ratio)]))
                         model_k(chk, drv, e, dfn, covs, g, stab, which, case)
 
 
